@@ -69,5 +69,51 @@ Partition(shape, s, e) ==
   /\ \A i \in 1..(Len(r) - 1) : r[i].off + r[i].len = r[i + 1].off
   /\ \A i \in 1..Len(r) : r[i].len > 0 /\ ValidPiece(shape, r[i])
 
+---------------------------------------------------------------------------
+\* Flat-parameter sharding (FSDP): the parameters of a group are concatenated in order, the flat vector is cut into n equal
+\* chunks (the last ones possibly short or empty); shard rank k holds of parameter i the range FlatShards[k][i] = <<start,end>>
+\* of the parameter's own flattened elements (<<0,0>> when it holds none of it).  (C07)
+RECURSIVE SumTo(_, _)
+SumTo(ns, i) == IF i = 0 THEN 0 ELSE ns[i] + SumTo(ns, i - 1)
+Max2(a, b) == IF a >= b THEN a ELSE b
+Min2(a, b) == IF a <= b THEN a ELSE b
+FlatShards(shapes, n) ==
+  LET ns    == [i \in 1..Len(shapes) |-> Prod(shapes[i])]
+      total == SumTo(ns, Len(ns))
+      chunk == (total + n - 1) \div n
+  IN [k \in 1..n |-> [i \in 1..Len(shapes) |->
+        LET off == SumTo(ns, i - 1)
+            lo  == Max2(off, (k - 1) * chunk)
+            hi  == Min2(off + ns[i], k * chunk)
+        IN IF lo < hi THEN <<lo - off, hi - off>> ELSE <<0, 0>>]]
+ShardPieces(shapes, n) ==
+  LET fs == FlatShards(shapes, n)
+  IN [k \in 1..n |-> [i \in 1..Len(shapes) |-> Recover(shapes[i], fs[k][i][1], fs[k][i][2])]]
+\* across the shard ranks every element of every parameter lies in exactly one recovered piece (=> is updated exactly once per step)
+ExactlyOnceAcrossShards(shapes, n) ==
+  LET sp == ShardPieces(shapes, n)
+  IN \A i \in 1..Len(shapes) :
+       LET all == FlattenSeq([k \in 1..n |-> sp[k][i]])
+       IN /\ (Prod(shapes[i]) > 0) => (all # <<>> /\ all[1].off = 0 /\ all[Len(all)].off + all[Len(all)].len = Prod(shapes[i]))
+          /\ \A j \in 1..(Len(all) - 1) : all[j].off + all[j].len = all[j + 1].off
+          /\ \A j \in 1..Len(all) : ValidPiece(shapes[i], all[j])
+
+\* dim-0 sharding of DTensor parameters (fully_shard / hybrid shard, C08): rows are cut into ceil(rows / n) sized chunks, trailing
+\* ranks may receive no row; the local shard of rank k is ONE slab (or nothing) and is optimised as an ordinary tensor
+Dim0Pieces(shapes, n) ==
+  [k \in 1..n |-> [i \in 1..Len(shapes) |->
+     LET rows == shapes[i][1]
+         rest == Prod(Tail(shapes[i]))
+         c    == (rows + n - 1) \div n
+         lo   == Min2(rows, (k - 1) * c)
+         hi   == Min2(rows, k * c)
+     IN IF lo < hi THEN << [off |-> lo * rest, len |-> (hi - lo) * rest, shp |-> <<hi - lo>> \o Tail(shapes[i])] >> ELSE <<>>]]
+Dim0ExactlyOnce(shapes, n) ==
+  \A i \in 1..Len(shapes) :
+     LET all == FlattenSeq([k \in 1..n |-> Dim0Pieces(shapes, n)[k][i]])
+     IN /\ all # <<>> /\ all[1].off = 0 /\ all[Len(all)].off + all[Len(all)].len = Prod(shapes[i])
+        /\ \A j \in 1..(Len(all) - 1) : all[j].off + all[j].len = all[j + 1].off
+        /\ \A j \in 1..Len(all) : ValidPiece(shapes[i], all[j])
+
 Expected(shape, s, e) == Recover(shape, s, e)
 =============================================================================
